@@ -96,9 +96,12 @@ def _sources():
 
 
 class _Uncached(alchemy.Parser):
-    """The alchemy parser with the ``generate_feature`` cache taken out (same code, no memo)."""
+    """The alchemy parser without any ``generate_feature`` memo: the two-line body of the method, restated here so that
+    the reference does not depend on how (or whether) forml caches it."""
 
-    generate_feature = parsmod.Visitor.generate_feature.__wrapped__
+    def generate_feature(self, feature):  # pylint: disable=arguments-differ
+        feature.accept(self)
+        return self.context.symbols.pop()
 
 
 def _compiled(selectable) -> str:
